@@ -150,8 +150,11 @@ func mcOpenRunNoSetup(dir string) *mcReopen {
 func TestMC_C21(t *testing.T) {
 	c := verifmc.Start(t, "C21", "model_checking")
 	defer c.Finish()
-	c.SetRule("workload: chain A finalizes a node-pledge (consensus-class singleton) snapshot, chain B finalizes N ordinary snapshots, both through the real cosiHandleFinalization on an on-disk store; for every crash cut k (commit k and later fail) every interleaving of the two goroutines at commit granularity up to the preemption bound; after each: close, reopen, real SetupNode, then the invariant 'consensus snapshot durable => last recorded consensus operation is it'")
-	c.Assume("a Badger transaction commit is the atomic durable unit (crash points are commit boundaries of the snapshot DB)", "commits are the only scheduling points; kernel/topology.go's sequence mutex and the store mutex are modelled by the scheduler", "consensus-class operations exercised: node pledge (through the complete cosiHandleFinalization) and mint (through the post-validation tail: takeover lock, persist, AddSnapshot, reloadConsensusState); remove/custodian update share the pledge branch of reloadConsensusState")
+	c.SetRule("base part: chain A finalizes a node-pledge / mint (consensus-class singleton) snapshot, chain B finalizes N ordinary snapshots, both through the real cosiHandleFinalization on an on-disk store; for every crash cut k (commit k and later fail) every interleaving of the two goroutines at commit granularity up to the preemption bound; after each: close, reopen, real SetupNode, then the invariant 'consensus snapshot durable => last recorded consensus operation is it'. " +
+		"history part: product {B = mint | pledge} x {recorded consensus transaction A re-included by a snapshot of another chain before B: no | yes} x {timestamps of the other chain's ordinary snapshots relative to recorded consensus snapshot A: older | equal | newer (thorough: also ordered pairs)}; history = prefix [A finalized+recorded, re-inclusion R] then thread A [B] || thread B [ordinary snapshots]; every crash cut of the WHOLE history (prefix commits included) x every interleaving of the concurrent part at commit granularity up to the preemption bound; after each: node abandoned, real SetupNode over the committed state, then 'consensus record == last finalized consensus snapshot in topological order (a re-inclusion of the recorded transaction does not move it)'")
+	c.Assume("a Badger transaction commit is the atomic durable unit (crash points are commit boundaries of the snapshot DB)", "commits are the only scheduling points; kernel/topology.go's sequence mutex and the store mutex are modelled by the scheduler", "consensus-class operations exercised: node pledge (through the complete cosiHandleFinalization) and mint (through the post-validation tail: takeover lock, persist, AddSnapshot, reloadConsensusState); remove/custodian update share the pledge branch of reloadConsensusState",
+		"history part: the store is an in-memory Badger that survives the crash as committed (no close/reopen; the base part does the on-disk reopen); the re-inclusion R goes through the post-validation tail (AddSnapshot + reloadConsensusState) and lands before B is proposed (a re-inclusion validated before and written after B's record is a live-path matter, not a crash matter)")
+	tStart := time.Now()
 	base := mcScratchDir("c21-")
 	defer mcRemoveAll(base)
 	nOrdinary := verifmc.Pick(c, 1, 2)
@@ -161,27 +164,88 @@ func TestMC_C21(t *testing.T) {
 	var mu sync.Mutex
 	var execs int64
 	markerOK := 0
-	for _, kind := range []string{"pledge", "mint"} {
-		kind := kind
-		// probe run without cut: number of commits of the workload
-		var total int64
-		{
+	kinds := []string{"pledge", "mint"}
+	totals := make([]int64, len(kinds))
+	scenarios := c21Scenarios(c.Thorough())
+	info := &c21HistInfo{total: map[string]int64{}, prefix: map[string]int64{}, reached: map[string]int64{}}
+
+	// ---- probe runs without cut: number of commits of each workload ----
+	c.ParallelN(len(kinds)+len(scenarios), "probe runs", func(_, i int) {
+		if i < len(kinds) {
+			kind := kinds[i]
 			ex := &verifmc.Explorer{C: c, Bound: 0, Name: kind + ":probe"}
 			ex.Body = func(s *verifmc.Sched, report func(key, desc string)) string {
 				return c21Body(s, kind, 0, nOrdinary, base, &seq, &mu, report)
 			}
 			ex.Run()
 			for o := range ex.Outcomes {
-				fmt.Sscanf(o, "commits=%d", &total)
+				fmt.Sscanf(o, "commits=%d", &totals[i])
+			}
+			return
+		}
+		sc := scenarios[i-len(kinds)]
+		ex := &verifmc.Explorer{C: c, Bound: 0, Name: sc.name() + ":probe"}
+		ex.Body = func(s *verifmc.Sched, report func(key, desc string)) string {
+			return c21HistBody(s, sc, 0, info, report)
+		}
+		ex.Run()
+		var pre, tot int64
+		for o := range ex.Outcomes {
+			fmt.Sscanf(o, "prefix=%d commits=%d", &pre, &tot)
+		}
+		info.mu.Lock()
+		info.prefix[sc.name()], info.total[sc.name()] = pre, tot
+		info.mu.Unlock()
+	})
+
+	// ---- every (workload, crash cut) is one unit; the on-disk units first ----
+	type unit struct {
+		kind string       // base part
+		sc   *c21Scenario // history part
+		cut  int64
+	}
+	var units []unit
+	for i, kind := range kinds {
+		c.Require(totals[i] >= 6, "%s probe found only %d commits", kind, totals[i])
+		c.Set("commits_in_workload_"+kind, totals[i])
+		for cut := int64(1); cut <= totals[i]+1; cut++ { // total+1 = no crash
+			units = append(units, unit{kind: kind, cut: cut})
+		}
+	}
+	var histCuts, histPrefixCuts int64
+	for i := range scenarios {
+		sc := &scenarios[i]
+		pre, tot := info.prefix[sc.name()], info.total[sc.name()]
+		want := int64(4) // A: lock, persist, snapshot, record
+		c.Require(pre >= want && tot >= pre+6, "%s probe found only %d prefix / %d total commits", sc.name(), pre, tot)
+		for cut := int64(1); cut <= tot+1; cut++ {
+			units = append(units, unit{sc: sc, cut: cut})
+			histCuts++
+			if cut <= pre {
+				histPrefixCuts++
 			}
 		}
-		c.Require(total >= 6, "%s probe found only %d commits", kind, total)
-		c.Set("commits_in_workload_"+kind, total)
-		c.ParallelN(int(total)+1, "crash cuts", func(_, i int) {
-			cut := int64(i + 1) // 1..total+1 (total+1 = no crash)
-			ex := &verifmc.Explorer{C: c, Bound: bound, Name: fmt.Sprintf("%s:cut=%d", kind, cut)}
+	}
+	var histExecs int64
+	var baseBusy, histBusy time.Duration
+	tUnits := time.Now()
+	fmt.Printf("C21-TIMING probes done at %v\n", time.Since(tStart))
+	c.ParallelN(len(units), "crash cuts", func(_, i int) {
+		u := units[i]
+		t0 := time.Now()
+		defer func() {
+			mu.Lock()
+			if u.sc == nil {
+				baseBusy += time.Since(t0)
+			} else {
+				histBusy += time.Since(t0)
+			}
+			mu.Unlock()
+		}()
+		if u.sc == nil {
+			ex := &verifmc.Explorer{C: c, Bound: bound, Name: fmt.Sprintf("%s:cut=%d", u.kind, u.cut)}
 			ex.Body = func(s *verifmc.Sched, report func(key, desc string)) string {
-				return c21Body(s, kind, cut, nOrdinary, base, &seq, &mu, report)
+				return c21Body(s, u.kind, u.cut, nOrdinary, base, &seq, &mu, report)
 			}
 			ex.Run()
 			mu.Lock()
@@ -192,10 +256,43 @@ func TestMC_C21(t *testing.T) {
 				}
 			}
 			mu.Unlock()
-		})
-	}
+			return
+		}
+		ex := &verifmc.Explorer{C: c, Bound: bound, Name: fmt.Sprintf("%s:cut=%d", u.sc.name(), u.cut)}
+		ex.Body = func(s *verifmc.Sched, report func(key, desc string)) string {
+			return c21HistBody(s, *u.sc, u.cut, info, report)
+		}
+		ex.Run()
+		mu.Lock()
+		execs += ex.Executions
+		histExecs += ex.Executions
+		mu.Unlock()
+	})
+	fmt.Printf("C21-TIMING units wall %v; worker-busy base(on-disk) %v for %d execs, history(in-memory) %v for %d execs\n", time.Since(tUnits), baseBusy, execs-histExecs, histBusy, histExecs)
 	c.Set("executions", execs)
 	c.Set("preemption_bound", bound)
 	c.Set("ordinary_snapshots", nOrdinary)
-	c.Require(markerOK > 0, "no execution reached a durable consensus snapshot with its marker")
+	c.Set("history_scenarios", len(scenarios))
+	c.Set("history_crash_cuts", histCuts)
+	c.Set("history_crash_cuts_in_prefix", histPrefixCuts)
+	c.Set("history_executions", histExecs)
+	for k, v := range info.reached {
+		c.Set("history_reached:"+k, v)
+	}
+	for _, h := range info.harness {
+		c.Require(false, "history part: %s", h)
+	}
+	if c.Violations() == 0 && !c.Expired("guards") {
+		c.Require(markerOK > 0, "no execution reached a durable consensus snapshot with its marker")
+		for _, k := range []string{
+			"unrecorded-is-head",
+			"unrecorded-then-ordinary:head-older-than-recorded",
+			"unrecorded-then-ordinary:head-equal-to-recorded",
+			"unrecorded-then-ordinary:head-newer-than-recorded",
+			"unrecorded-then-ordinary:after-reinclusion-of-recorded",
+			"reinclusion-durable-record-unmoved",
+		} {
+			c.Require(info.reached[k] > 0, "history part: no execution reached the restart in situation %q", k)
+		}
+	}
 }
